@@ -673,9 +673,17 @@ func init() {
 			targets := []string{"itself", "cell", "row"}
 			var regs []reg
 			nreg := 0
+			sameTime := r.chance(1, 2) // pairs at the same time are what exposes ordering
+			setCbs := map[int][2]string{}
 			register := func(owner string) {
 				nreg++
 				when, target := whens[(c+nreg)%4], targets[(c/4+nreg)%3]
+				if sameTime {
+					when = whens[c%4]
+					if r.chance(2, 3) {
+						target = "cell"
+					}
+				}
 				if r.chance(1, 25) {
 					when = "bad"
 				}
@@ -685,6 +693,9 @@ func init() {
 				}
 				res := g.do(fmt.Sprintf("regcb %s %s %s %s %s", t, owner, when, target, cb))
 				want := acceptedReg(owner[:1], target) && when != "bad"
+				if res == "ok" && strings.HasPrefix(cb, "set:") {
+					setCbs[nreg] = [2]string{fmt.Sprintf("u%d", nreg), fmt.Sprintf("u%d", 100+nreg)}
+				}
 				if (res == "ok") != want {
 					viol = append(viol, fmt.Sprintf("registering owner %s target %s time %s: %s, documented matrix says accepted=%v", owner, target, when, res, want))
 				}
@@ -726,7 +737,27 @@ func init() {
 				rows = append(rows, late)
 				g.do("rowadd " + late + " " + item)
 			}
-			g.do("events") // add-time events: compared Go vs model; the render pass is checked against the documented order
+			// the object handed to a callback is the live one: what a set-property callback wrote is
+			// readable afterwards through the table
+			readBack := func(evs string) {
+				seen := map[string]bool{}
+				for _, e := range listOf(evs) {
+					p := strings.SplitN(e, "@", 2)
+					if strings.Contains(p[1], "?") {
+						viol = append(viol, fmt.Sprintf("callback %s was handed an object that is none of the live table, columns, rows or cells", p[0]))
+						continue
+					}
+					kv2, isSet := setCbs[atoi(p[0])]
+					if !isSet || seen[e] {
+						continue
+					}
+					seen[e] = true
+					if got := g.do(fmt.Sprintf("getprop %s %s", p[1], kv2[0])); got != kv2[1] {
+						viol = append(viol, fmt.Sprintf("callback %s set %s=%s on %s, reading it back through the table gives %s", p[0], kv2[0], kv2[1], p[1], got))
+					}
+				}
+			}
+			readBack(g.do("events")) // add-time events (also compared Go vs model)
 			passes := 1 + r.n(2)
 			for p := 0; p < passes; p++ {
 				g.do("invoke " + t)
@@ -735,6 +766,7 @@ func init() {
 				if got != want {
 					viol = append(viol, fmt.Sprintf("render pass %d: callbacks fired as %s, documented order gives %s", p+1, got, want))
 				}
+				readBack(got)
 			}
 			// live objects: properties set by callbacks are visible through the table
 			for _, rg := range regs {
